@@ -187,6 +187,8 @@ pub fn stress_shapes(ctx: &mut Ctx, reps: u64) {
         ctx.count("answered-between-polls-histories");
         run_plain(ctx, &gen_bystander_calls(&mut rng));
         ctx.count("bystander-call-histories");
+        run_plain(ctx, &gen_handle_then(&mut rng));
+        ctx.count("handle-then-histories");
         // (13) stray, duplicated and late responses, then their ids are used by new requests
         {
             let t = rng.below(NTID as u64) as u8;
@@ -206,7 +208,7 @@ pub fn stress_shapes(ctx: &mut Ctx, reps: u64) {
             run_plain(ctx, &History { tcp: rng.chance(1, 3), remote0: None, remote_addr: None, ops });
             ctx.count("stray-then-reused-id-histories");
         }
-        ctx.count_n("stress-histories", 11);
+        ctx.count_n("stress-histories", 12);
     }
     for _ in 0..(reps / 16).max(2) {
         let h = gen_many_peers(&mut rng);
@@ -343,6 +345,33 @@ pub fn gen_bystander_calls(rng: &mut crate::prng::Rng) -> History {
         ops.push(Op::Poll(PollAt::AtWait));
     }
     History { tcp: rng.chance(1, 5), remote0: if rng.chance(1, 2) { Some(0) } else { None }, remote_addr: None, ops }
+}
+
+/// (16) a handle that outlives a call routed through it: the agent is polled through a request
+///      handle's `mut_agent()` (early: it answers WaitUntil) and the SAME handle then shortens the
+///      schedule, cancels, or stops retransmissions; the next wake-up is the new schedule's
+pub fn gen_handle_then(rng: &mut crate::prng::Rng) -> History {
+    let n = 1 + rng.below(3) as u8;
+    let mut ops: Vec<Op> = (0..n).map(|i| req(i, i % NCORE as u8, Sealing::None, 50 + i as u16)).collect();
+    for _ in 0..rng.usize(3) {
+        ops.push(Op::Poll(PollAt::AtWait));
+    }
+    let holder = rng.below(n as u64) as u8;
+    let then = match rng.below(4) {
+        0 => Op::Cancel(holder),
+        1 => Op::CancelRetrans(holder),
+        // a much shorter schedule than the one the agent has just reported a wake-up for
+        2 => Op::Configure { tid: holder, rto: 1 + rng.below(40), n: 1 + rng.below(4) as u32, last: 1 + rng.below(60), rto_us: 0, last_us: 0 },
+        _ => gen_configure(rng, holder),
+    };
+    ops.push(Op::ViaThen { holder, inner: Box::new(Op::Poll(*rng.pick(&[PollAt::Now, PollAt::Half, PollAt::Before(1), PollAt::AtWait]))), then: Box::new(then) });
+    for _ in 0..4 {
+        ops.push(Op::Poll(*rng.pick(&[PollAt::Now, PollAt::AtWait, PollAt::AtWait, PollAt::Before(1)])));
+    }
+    for _ in 0..(n as usize * 9) {
+        ops.push(Op::Poll(PollAt::AtWait));
+    }
+    History { tcp: rng.chance(1, 4), remote0: None, remote_addr: None, ops }
 }
 
 /// (11) stale instants: a call is handed an instant earlier than one handed to an earlier call (for
@@ -591,6 +620,7 @@ pub fn run_c06(ctx: &mut Ctx) {
     ctx.require("default-schedules-checked", 2);
     ctx.require("bystander-calls-in-schedules", 10_000);
     ctx.require("bystander-call-histories", 300);
+    ctx.require("handle-used-after-routing-a-call-through-it", 200);
 }
 
 pub fn run_c07(ctx: &mut Ctx) {
